@@ -5,6 +5,7 @@ use crate::util::Check;
 pub const PRELUDE: &str = include_str!("../prelude.js");
 
 pub mod c01;
+pub mod c02;
 pub mod c13;
 pub mod c15;
 pub mod c18;
@@ -12,6 +13,7 @@ pub mod c18;
 pub fn lookup(id: &str) -> Option<Box<dyn Check>> {
     match id {
         "C01" => Some(Box::new(c01::C01)),
+        "C02" => Some(Box::new(c02::C02)),
         "C13" => Some(Box::new(c13::C13)),
         "C15" => Some(Box::new(c15::C15)),
         "C18" => Some(Box::new(c18::C18)),
